@@ -193,6 +193,7 @@ def shard(m, items, maxlen=5):
         ref = Ref(g, Cfg())
         inputs = list(gs.inputs(tpl['tokens'], maxlen))
         m.note('templates', tname)
+        impl.rule_reach(m, 'template-rules', f'{tname}/{entry}', model, inputs, start='top')
         extra_starts = [r.name for r in rules if r.name in ('f', 'stmt')]
         reused = pcls()    # one generated parser object reused for every input of this program
         for t in inputs:
